@@ -32,6 +32,10 @@ repository adds around it:
            what it sealed (same key, aad, version byte); SealError for another key / aad and for any
            change after the version label; a token whose version label alone differs may be refused
            or opened, never to another payload.
+(f) xh   : the foreign-key dimension through the live `crypto.normalize_key` (ideal hash, ideal backend): for any
+           two configured keys of any length up to the bound an envelope sealed under one opens under the other
+           <=> the two configured keys are equal byte strings.  This is what (b)-(e) take for granted when they
+           treat "the key" as the configured byte string; the replay runs real crypto and two real workers.
 """
 
 from __future__ import annotations
@@ -46,12 +50,12 @@ from vgi_rpc.http.server import _state_token as st
 from vgi_rpc.rpc import AuthContext
 
 PROPERTY = "C12"
-ENCODED = [st._compute_aad, st._compute_call_aad, *tc.TOKEN_FUNCS, aps._unpack_and_recover_state, aps._resolve_call_from_token, crypto.seal_bytes, crypto.open_bytes]
+ENCODED = [st._compute_aad, st._compute_call_aad, *tc.TOKEN_FUNCS, aps._unpack_and_recover_state, aps._resolve_call_from_token, crypto.seal_bytes, crypto.open_bytes, crypto.normalize_key]
 BOUNDS = (
     "(a) all identities (and method names, once bound), unbounded string lengths; (b) segments <= 3 bytes, keys/AADs <= 2 bytes, arbitrary cursor plaintexts up to 7 bytes longer than the shortest sealed cursor payload, "
     "arbitrary call plaintexts up to %d byte(s) longer than the shortest sealed call payload; (c) all 64-bit created_at <= now, unbounded integer now, ttl >= 0; (d) 2 streams, 4x4 identities, 6 cursor-slot x (absent + 7) call-slot "
     "presentations, cold / warm cache, any request time >= /init (ttl 50), streams with and without call state; (e) payload <= 2 bytes, same/other key, aad, version byte; envelope untouched / relabelled / "
-    "any single byte substituted / any truncation / one byte appended" % pick(1, 2)
+    "any single byte substituted / any truncation / one byte appended; (f) any two configured keys of 0..%d bytes" % (pick(1, 2), crypto._KEY_LEN + pick(4, 40))
 )
 OUTSIDE = (
     "the AEAD primitive itself (bit flips / truncation of real ciphertexts are rejected by *assumption*); base64 alphabet variants (C decoder); "
@@ -63,6 +67,8 @@ ASSUMPTIONS = [
     "the version byte of crypto's envelope is NOT covered by the AEAD tag (crypto.open_bytes compares it before the tag check): the attacker may relabel a box's version freely; kind separation therefore rests on the AAD prefixes, decided in (a)",
     "str.encode() (UTF-8) is injective and maps exactly the NUL-free strings to NUL-free byte strings",
     "int.from_bytes(x.to_bytes(8,'little'),'little') == x for 0 <= x < 2**64, and the timestamp field is read as one little-endian integer (composition of the seal-side and open-side TTL items; a format that differs only makes them INCONCLUSIVE - their replays run the un-split composition on real code)",
+    "SHA-256 (any hashlib digest normalize_key uses) is an ideal hash: distinct inputs give distinct digests, and a digest never coincides with a directly configured key - i.e. no deployment configures, as one server's key, "
+    "the 32-byte digest of another server's key (on HEAD a 32-byte key K and a key X with sha256(X) == K do share an AEAD key; such a pair only arises by hashing the other key on purpose)",
     "(d) uses 4 representative identities (None, unauthenticated-with-fields, ('d','p'), ('','anonymous')); generalisation to all identities is (a)",
     "expiry, malformed-base64, missing-call-token and own-tokens-of-two-streams rejections may carry their own answers by design; indistinguishability is asserted among the authentication failures of one slot (foreign key / other identity / swapped kind / relabelled), relationally against the foreign-key answer",
 ]
@@ -924,7 +930,7 @@ def _ideal_open(body, key, aad, nonce):  # type: ignore[no-untyped-def]
 
 _ENV_STUBS = [
     "_seal/_open (XChaCha20-Poly1305 backend) := ideal: _open returns the payload iff (ciphertext+tag, key, aad, nonce) are exactly those of a previous _seal, else SealError",
-    "normalize_key := injective (SHA-256 collision freedom)",
+    "normalize_key := injective on configured keys (decided for the live function by envelope_opens_only_under_the_configured_key)",
     "os.urandom := fresh nonce",
 ]
 _env_seal = reglobalize(crypto.seal_bytes, _seal=_ideal_seal, os=tc.OSRAND, normalize_key=lambda k: (b"nk", k))
@@ -1010,6 +1016,191 @@ def crypto_envelope_opens_exactly_what_it_sealed(payload: bytes, mode: int, pos:
     if intact:
         return got is None or got == payload  # only the version label differs: refusing or opening, never another payload
     return got is None  # other key, other aad, any byte after the label changed, truncated, extended: SealError
+
+
+# --- the foreign-key dimension through the REAL key normalisation ---------------------------------------------------
+# Everything above treats "the key" as the configured byte string (ideal AEAD under the key / an injective
+# normalize_key).  Here that is decided: crypto.seal_bytes / open_bytes with the live `normalize_key`, two symbolic
+# configured keys of any length up to the bound; only the hash function and the backend primitive are ideal.
+
+_HASH_SIZES = {"sha256": 32, "sha3_256": 32, "blake2s": 32, "sha512": 64, "sha3_512": 64, "blake2b": 64, "sha384": 48, "sha1": 20, "md5": 16}
+
+
+class _Digest:
+    """Output of the ideal hash: equal iff same algorithm and same input; never equal to a configured byte string."""
+
+    def __init__(self, alg, data) -> None:  # type: ignore[no-untyped-def]
+        self.alg = alg
+        self.data = data
+
+    def __len__(self) -> int:
+        return _HASH_SIZES[self.alg]
+
+    def __getitem__(self, i):  # type: ignore[no-untyped-def]
+        if isinstance(i, slice) and i.step is None and i.start in (None, 0) and (i.stop is None or i.stop >= len(self)):
+            return self  # the whole digest
+        raise HarnessModelError("part of an ideal digest observed")
+
+    def __iter__(self):  # type: ignore[no-untyped-def]
+        raise HarnessModelError("bytes of an ideal digest observed")
+
+    def __eq__(self, other):  # type: ignore[no-untyped-def]
+        raise HarnessModelError("ideal digest compared outside the ideal backend")
+
+    __hash__ = None  # type: ignore[assignment]
+
+    def __getattr__(self, name: str):  # type: ignore[no-untyped-def]
+        raise HarnessModelError(f"digest.{name} is outside the ideal-hash stub")
+
+
+class _Hasher:
+    def __init__(self, alg: str, data) -> None:  # type: ignore[no-untyped-def]
+        self.alg = alg
+        self.data = data
+
+    def update(self, more) -> None:  # type: ignore[no-untyped-def]
+        self.data = self.data + more
+
+    def digest(self) -> _Digest:
+        return _Digest(self.alg, self.data)
+
+    def __getattr__(self, name: str):  # type: ignore[no-untyped-def]
+        raise HarnessModelError(f"hash object .{name} is outside the ideal-hash stub")
+
+
+class _IdealHashlib(tc._Strict):
+    _name = "hashlib"
+
+    def __getattr__(self, name: str):  # type: ignore[no-untyped-def]
+        if name in _HASH_SIZES:
+            def ctor(data=b"", **kw):  # type: ignore[no-untyped-def]
+                if kw:
+                    raise HarnessModelError(f"hashlib.{name} with options {sorted(kw)} is outside the ideal-hash stub")
+                return _Hasher(name, data)
+
+            return ctor
+        return tc._Strict.__getattr__(self, name)
+
+
+def _beq(a, b) -> bool:  # type: ignore[no-untyped-def]
+    """a == b for byte strings, branch-light: one fork on the common length, one on the conjunction of the element
+    comparisons (the built-in comparison forks once per position)."""
+    la, lb = len(a), len(b)
+    if la != lb:
+        return False
+    for n in range(_KEY_CAP + 1):
+        if la == n:
+            acc = True
+            for i in range(n):
+                acc = acc & (a[i] == b[i])
+            return bool(acc)
+    raise HarnessModelError("byte string longer than the ideal-hash model compares")
+
+
+def _same_aead_key(a, b) -> bool:  # type: ignore[no-untyped-def]
+    """Equality of two keys handed to the backend primitive (configured bytes and/or ideal digests)."""
+    da, db = isinstance(a, _Digest), isinstance(b, _Digest)
+    if da and db:
+        return a.alg == b.alg and _beq(a.data, b.data)  # collision freedom: equal digests <=> equal inputs
+    if da or db:
+        return False  # a digest never coincides with a directly configured key (see ASSUMPTIONS)
+    return _beq(a, b)
+
+
+_KBACKEND: list = []
+
+
+def _key_seal(payload, key, aad, nonce):  # type: ignore[no-untyped-def]
+    if len(key) != crypto._KEY_LEN:
+        raise ValueError("the backend primitive takes a key of exactly the AEAD key length")
+    ct = bytes([0xC0 + len(_KBACKEND)]) + b"c" * (len(payload) + crypto._TAG_LEN - 1)
+    _KBACKEND.append((ct, payload, key, aad, nonce))
+    return ct
+
+
+def _key_open(body, key, aad, nonce):  # type: ignore[no-untyped-def]
+    if len(key) != crypto._KEY_LEN:
+        raise ValueError("the backend primitive takes a key of exactly the AEAD key length")
+    for ct, payload, k, a, n in _KBACKEND:
+        if body == ct and aad == a and nonce == n and _same_aead_key(key, k):
+            return payload
+    raise crypto.SealError("token verification failed")
+
+
+_KEY_STUBS = [
+    "_seal/_open (XChaCha20-Poly1305 backend) := ideal: takes a key of exactly crypto._KEY_LEN bytes (ValueError otherwise, as both real backends); _open returns the payload iff (ciphertext+tag, key, aad, nonce) are exactly those of a previous _seal, else SealError",
+    "hashlib := ideal hash (random oracle): digests are equal iff algorithm and input are equal, and a digest never coincides with a directly configured key",
+    "os.urandom := fresh nonce",
+]
+_norm_real = reglobalize(crypto.normalize_key, **tc.if_referenced(crypto.normalize_key, hashlib=_IdealHashlib()))
+_key_env_seal = reglobalize(crypto.seal_bytes, _seal=_key_seal, os=tc.OSRAND, normalize_key=_norm_real)
+_key_env_open = reglobalize(crypto.open_bytes, _open=_key_open, normalize_key=_norm_real)
+_KEY_HI = crypto._KEY_LEN + pick(4, 40)
+_KEY_CAP = 4 * _KEY_HI  # longest hash input / backend key the comparison model follows (the code may pad or concatenate)
+
+
+def _replay_foreign_key(args: dict) -> str | None:
+    """Real crypto, real key normalisation: the envelope layer, then two workers holding the two keys (real token functions)."""
+    key, key2, p = args["key"], args["key2"], args["payload"]
+    v = st._CURSOR_TOKEN_VERSION
+    try:
+        good = crypto.seal_bytes(p, key, aad=b"a1", version=v)
+    except Exception as e:  # noqa: BLE001
+        return f"seal_bytes cannot seal under a configured key of {len(key)} bytes: {e!r}"
+    try:
+        got = crypto.open_bytes(good, key2, aad=b"a1", version=v)
+    except crypto.SealError:
+        got = None
+    except Exception as e:  # noqa: BLE001
+        return f"open_bytes raised {e!r} instead of SealError (key of {len(key2)} bytes)"
+    if key2 == key:
+        return None if got == p else f"an envelope sealed under a {len(key)}-byte key did not open under the same key: {got!r}"
+    if got is not None:
+        return f"an envelope sealed under key {key!r} opened under the different key {key2!r}"
+    # the same question at the property's level: stream tokens minted by a worker holding `key`, presented to a worker holding `key2`
+    with tc.RealWorld({"m": tc.RealStateA}, key, _TTL, 0, now=100) as a, tc.RealWorld({"m": tc.RealStateA}, key2, _TTL, 0, now=100) as b:
+        s = a.init("m", _IDS[2])
+        own = a.unpack("m", _IDS[2], s["cursor"], s["call"])
+        got2 = b.unpack("m", _IDS[2], s["cursor"], s["call"])
+    if own[0] != "ok":
+        return f"the minting worker refused its own tokens: {own[:3]!r}"
+    if got2[0] == "ok":
+        return f"stream tokens minted under key {key!r} were served by a worker holding the different key {key2!r}"
+    if got2[0] == "exc" or got2[1] != 400:
+        return f"foreign-key stream tokens answered {got2[:3]!r} instead of HTTP 400"
+    return None
+
+
+@cond(q=60, t=300, stubs=_KEY_STUBS, encoded=[crypto.normalize_key, crypto.seal_bytes, crypto.open_bytes],
+      bound="any two configured keys of 0..%d bytes each (AEAD key length %d), payload <= 2 bytes" % (_KEY_HI, crypto._KEY_LEN),
+      replay=_replay_foreign_key, signature=lambda a, c: "C12:envelope:key:" + ("same-key-refused" if a.get("key") == a.get("key2") else "foreign-key-opens"))
+def envelope_opens_only_under_the_configured_key(key: bytes, key2: bytes, payload: bytes) -> bool:
+    """
+    pre: len(key) <= _KEY_HI and len(key2) <= _KEY_HI and len(payload) <= 2
+    post: _
+    """
+    tc.reset(now=0)
+    del _KBACKEND[:]
+    payload = _flat(payload, 0, 2)
+    key = _flat(key, 0, _KEY_HI)  # forks on the first key's length; the second key's length stays symbolic
+    v = st._CURSOR_TOKEN_VERSION
+    try:
+        good = _key_env_seal(payload, key, aad=b"a1", version=v)
+    except HarnessModelError:
+        raise
+    except Exception:  # noqa: BLE001
+        return False  # keys of any length: sealing never fails because of the key
+    try:
+        got = _key_env_open(good, key2, aad=b"a1", version=v)
+    except crypto.SealError:
+        got = None
+    except HarnessModelError:
+        raise
+    except Exception:  # noqa: BLE001
+        return False
+    if _beq(key2, key):
+        return got == payload
+    return got is None  # a different configured key, whatever the two lengths: never opens
 
 
 _NOCS_BOUND = "streams whose method returns NO call state (empty call-state segment): 4x4 identities, cursor slot = a genuine cursor of stream 1 / stream 2, (absent + 7) call-slot presentations, any request time >= /init; "
